@@ -239,7 +239,20 @@ func c18Predicate(r *an.Run) {
 				if ret == nil {
 					return false
 				}
-				v, ok := an.ConstBool(ret.Results[0])
+				res := ret.Results[0]
+				// single exit: the answer on this way out is the edge of the returned phi
+				prev, cur := (*ssa.BasicBlock)(nil), b
+				for n := 0; cur != ret.Block() && len(cur.Succs) == 1 && n < 8; n++ {
+					prev, cur = cur, cur.Succs[0]
+				}
+				if phi, isPhi := res.(*ssa.Phi); isPhi && phi.Block() == cur && prev != nil {
+					for i, p := range cur.Preds {
+						if p == prev {
+							res = phi.Edges[i]
+						}
+					}
+				}
+				v, ok := an.ConstBool(res)
 				return ok && v
 			})
 			r.Check(msg == "" && il.Start == 0 && il.Step == 1, short(f)+"|doc-loop-covers", ct.Pos(), "every comment of the package doc is inspected; the loop is left early only to return true %s", msg)
@@ -254,27 +267,52 @@ func c18Predicate(r *an.Run) {
 			returnedDirectly = true
 		}
 	}
+	// what is returned, and from where: a return of a constant, or — with a result variable and a single exit —
+	// a constant that flows into the returned phi from a block
+	type outcome struct {
+		val ssa.Value
+		at  *ssa.BasicBlock
+		ret *ssa.Return
+	}
+	var outcomes []outcome
 	for _, ret := range an.Returns(f) {
-		v, isc := an.ConstBool(ret.Results[0])
+		var expand func(v ssa.Value, at *ssa.BasicBlock, depth int)
+		expand = func(v ssa.Value, at *ssa.BasicBlock, depth int) {
+			if phi, ok := v.(*ssa.Phi); ok && depth < 4 {
+				for i, e := range phi.Edges {
+					expand(e, phi.Block().Preds[i], depth+1)
+				}
+				return
+			}
+			outcomes = append(outcomes, outcome{v, at, ret})
+		}
+		expand(ret.Results[0], ret.Block(), 0)
+	}
+	for _, oc := range outcomes {
+		ret := &struct {
+			blk *ssa.BasicBlock
+			pos token.Pos
+		}{oc.at, oc.ret.Pos()}
+		v, isc := an.ConstBool(oc.val)
 		if !isc {
 			// `return ast.IsGenerated(f) || ...` style: accept if it is one of the atoms
-			if ret.Results[0] == ssa.Value(ct) {
+			if oc.val == ssa.Value(ct) {
 				returnedDirectly = true
 			}
-			if ret.Results[0] == ssa.Value(isGen) || ret.Results[0] == ssa.Value(ct) {
+			if oc.val == ssa.Value(isGen) || oc.val == ssa.Value(ct) {
 				continue
 			}
-			r.Undecided(short(f)+"|return", ret.Pos(), "the predicate returns a computed value: decision table cannot be extracted")
+			r.Undecided(short(f)+"|return", oc.ret.Pos(), "the predicate returns a computed value: decision table cannot be extracted")
 			continue
 		}
 		if v {
 			// reachable only through a true atom
 			edges := append(edgesWhen(genBrs, true), edgesWhen(ctBrs, true)...)
-			r.Check(unreachableWithout(ret.Block(), edges), short(f)+"|true-needs-marker", ret.Pos(), "the predicate returns true only when ast.IsGenerated or the @generated test succeeded")
+			r.Check(unreachableWithout(ret.blk, edges), short(f)+"|true-needs-marker", ret.pos, "the predicate returns true only when ast.IsGenerated or the @generated test succeeded")
 		} else {
 			// unreachable when IsGenerated is true
-			r.Check(unreachableWithout(ret.Block(), edgesWhen(genBrs, false)), short(f)+"|false-needs-not-generated", ret.Pos(), "the predicate returns false only when ast.IsGenerated is false")
-			r.Check(returnedDirectly || len(ctBrs) > 0 && !reachableVia(ret.Block(), edgesWhen(ctBrs, true)), short(f)+"|false-needs-no-marker", ret.Pos(), "a true @generated test never leads to false")
+			r.Check(unreachableWithout(ret.blk, edgesWhen(genBrs, false)), short(f)+"|false-needs-not-generated", ret.pos, "the predicate returns false only when ast.IsGenerated is false")
+			r.Check(returnedDirectly || len(ctBrs) > 0 && !reachableVia(ret.blk, edgesWhen(ctBrs, true)), short(f)+"|false-needs-no-marker", ret.pos, "a true @generated test never leads to false")
 		}
 	}
 	r.Check(len(genBrs) > 0 && (len(ctBrs) > 0 || returnedDirectly), short(f)+"|branches", f.Pos(), "the predicate branches on both tests")
@@ -284,6 +322,22 @@ func c18Predicate(r *an.Run) {
 		if an.IsNilConst(c.Key) {
 			if ret := an.ReturnOf(c.Target); ret != nil {
 				if v, ok := an.ConstBool(ret.Results[0]); ok && !v {
+					nilGuard = true
+				}
+			}
+			// single exit: from the nil edge nothing that reads f.Doc's list is reachable (the marker test is
+			// skipped; what is returned is ast.IsGenerated's answer, decided above)
+			reach := an.Reach([]*ssa.BasicBlock{c.Target}, nil)
+			if ct != nil && !reach[ct.Block()] {
+				derefs := false
+				for b := range reach {
+					for _, in := range b.Instrs {
+						if fa, ok := in.(*ssa.FieldAddr); ok && an.Path(fa.X) == "f.Doc" {
+							derefs = true
+						}
+					}
+				}
+				if !derefs {
 					nilGuard = true
 				}
 			}
